@@ -30,6 +30,45 @@ Theorem C11_read_gated_history : forall ops st1 st2,
 Proof. exact run_sim. Qed.
 Print Assumptions C11_read_gated_history.
 
+(* Several bearers on one server (Model: [msrv] = database + max_mtu + one [bst] per bearer
+   holding its ATT_MTU, security attributes, subscriptions and indication state; a stimulus
+   on bearer i is [step] on the database and the i-th [bst]; nothing else is shared).
+   bearer_locality: the PDUs sent in reaction to a stimulus on bearer i, the resulting database
+   and bearer i's resulting state depend only on the database, max_mtu and bearer i's own
+   state -- not on which other bearers exist, nor on anything they did before. *)
+Theorem C11_bearer_locality : forall m1 m2 i o,
+  m_db m1 = m_db m2 -> m_max_mtu m1 = m_max_mtu m2 ->
+  nth_error (m_bs m1) i = nth_error (m_bs m2) i ->
+  match mstep m1 i o, mstep m2 i o with
+  | Some (n1, o1), Some (n2, o2) =>
+      o1 = o2 /\ m_db n1 = m_db n2 /\ nth_error (m_bs n1) i = nth_error (m_bs n2) i
+  | None, None => True
+  | _, _ => False
+  end.
+Proof. exact mstep_local. Qed.
+Print Assumptions C11_bearer_locality.
+
+(* a stimulus on bearer j leaves every other bearer's state untouched *)
+Theorem C11_other_bearers_untouched : forall m j o n out i,
+  mstep m j o = Some (n, out) -> i <> j -> nth_error (m_bs n) i = nth_error (m_bs m) i.
+Proof. exact mstep_frame. Qed.
+Print Assumptions C11_other_bearers_untouched.
+
+(* read_gated over histories with several bearers.  Two servers with the same bearers whose
+   databases differ only in values the observer on bearer i (security attributes b0) may not
+   read: over EVERY history of stimuli (received PDUs of any opcode, notify / indicate calls,
+   confirmations) on ANY bearers -- the other bearers may be entitled to read and write what
+   the observer may not, and act arbitrarily in between -- bearer i is sent exactly the same
+   PDUs.  ([msim]: databases [attr_sim]-similar for b0 and free of D11a witnesses, same
+   max_mtu, same bearers with the same ATT_MTU / security / subscriptions, bearer i in the
+   same state.) *)
+Theorem C11_read_gated_several_bearers : forall ops i b0 m1 m2,
+  msim i b0 m1 m2 ->
+  option_map (fun r => outs_of i (snd r)) (mrun m1 ops) =
+  option_map (fun r => outs_of i (snd r)) (mrun m2 ops).
+Proof. exact mrun_sim. Qed.
+Print Assumptions C11_read_gated_several_bearers.
+
 (* D11a (known finding): without the hypothesis a WRITEABLE-only attribute is disclosed *)
 Theorem C11_read_gated_refuted :
   exists b db1 db2 opc ps,
@@ -103,5 +142,15 @@ Example C11_nonvacuous :
   option_map snd (rx (init (db [7]) b 517) 6 [1; 0; 255; 255; 34; 34; 7]) = Some [[1; 6; 1; 0; 10]] /\
   option_map snd (rx (init (db [7]) b 517) 32 [3; 0; 5; 0]) =
   option_map snd (rx (init (db [9]) b 517) 32 [3; 0; 5; 0]) /\
-  read_refusal b 5 = Some 15 /\ write_refusal (mkBearer 23 true false false) 42 = Some 5.
+  read_refusal b 5 = Some 15 /\ write_refusal (mkBearer 23 true false false) 42 = Some 5 /\
+  (* several bearers: an authorised peer (bearer 0) reads the protected long value, the peer on
+     the plain link (bearer 1) is refused whatever the offset, before and after *)
+  (let long := mkb 40 48 1 in
+   let m := minit [mkAttr 1 [0; 40] 1 [170; 170] 3 0 0 0; mkAttr 2 [3; 40] 1 [2; 3; 0; 34; 34] 3 0 0 0;
+                   mkAttr 3 [34; 34] 5 long 3 0 0 0] 517
+                  [mkBearer 23 true true false; b] in
+   option_map (fun r => map (fun io => (fst io, map (firstn 2) (snd io))) (snd r))
+     (mrun m [(1%nat, Rx 12 [3; 0; 22; 0]); (0%nat, Rx 10 [3; 0]); (1%nat, Rx 12 [3; 0; 22; 0]);
+              (0%nat, Rx 12 [3; 0; 22; 0]); (1%nat, Rx 10 [3; 0])]) =
+   Some [(1%nat, [[1; 12]]); (0%nat, [[11; 48]]); (1%nat, [[1; 12]]); (0%nat, [[13; 70]]); (1%nat, [[1; 10]])]).
 Proof. vm_compute. repeat split. Qed.
